@@ -1006,6 +1006,59 @@ Proof.
     apply safe_bind; [destruct c; [apply peer_rws_total|reflexivity]|]. intros; reflexivity.
 Qed.
 
+(* ---------------- the LNS over sequences of datagrams ---------------- *)
+Lemma lns_step_total auth st b : safe (lns_step auth st b).
+Proof.
+  unfold lns_step. apply safe_bind; [apply is_l2tpv3_total|]. intros v3 _.
+  destruct v3; [reflexivity|].
+  pose proof (l2tp_parse_total b) as Hp.
+  destruct (l2tp_parse b) as [[h payload]| | |]; try reflexivity; try discriminate Hp.
+  destruct (negb (h_ver h =? 2)); [reflexivity|].
+  destruct (negb (h_ctrl h)).
+  - destruct (tun_find (h_tid h) (ln_tuns st)) as [t|]; [|reflexivity].
+    destruct (sess_find (h_sid h) (lt_sess t)) as [x|]; [|reflexivity].
+    destruct (ls_state x =? 2); [|reflexivity].
+    pose proof (l2tp_dispatch_ppp_total (mk_dcfg true false true) payload) as Hd.
+    destruct (l2tp_dispatch_ppp Repaired (mk_dcfg true false true) payload); try reflexivity; discriminate Hd.
+  - pose proof (parse_avps_total payload) as Ha.
+    destruct (parse_avps payload) as [avps| | |]; try reflexivity; try discriminate Ha.
+    apply safe_bind; [apply decode_msg_type_total|]. intros mt _.
+    destruct (mt =? 1).
+    + destruct (find_first 0 7 avps) as [ha|]; [|reflexivity].
+      destruct (negb (if list_eq_dec N.eq_dec (a_value ha) auth then true else false)); [reflexivity|].
+      apply safe_bind.
+      { destruct (find_first 0 9 avps) as [a9|]; [|reflexivity].
+        destruct (2 <=? lenN (a_value a9)) eqn:E; [|reflexivity].
+        apply safe_bind; [apply decode_u16_guarded; lia|]. intros; reflexivity. }
+      intros dup _. cbv zeta.
+      match goal with |- safe (if ?c then _ else _) => destruct c end; [reflexivity|].
+      apply safe_bind; [apply sccrq_extract_total|]. intros c _. destruct c; reflexivity.
+    + destruct (tun_find (h_tid h) (ln_tuns st)) as [t|]; [|reflexivity].
+      destruct avps as [|a0 ar]; [reflexivity|].
+      destruct (mt =? 3); [destruct (lt_state t =? 2); reflexivity|].
+      destruct (mt =? 4); [reflexivity|].
+      destruct (mt =? 10).
+      { destruct (find_first 0 14 (a0 :: ar)) as [a14|]; [|reflexivity].
+        destruct (lenN (a_value a14) <? 2) eqn:E; [reflexivity|].
+        apply safe_bind; [apply decode_u16_guarded; lia|]. intros; reflexivity. }
+      destruct (mt =? 12).
+      { destruct (sess_find (h_sid h) (lt_sess t)) as [x|]; [|reflexivity]. destruct (ls_state x =? 1); reflexivity. }
+      destruct (mt =? 14); [destruct (sess_find (h_sid h) (lt_sess t)); reflexivity|reflexivity].
+Qed.
+Lemma lns_run_total auth : forall ds st, safe (lns_run auth st ds).
+Proof.
+  induction ds as [|d r IH]; intros st; cbn [lns_run]; [reflexivity|].
+  apply safe_bind; [apply lns_step_total|]. intros st' _.
+  apply safe_bind; [apply IH|]. intros; reflexivity.
+Qed.
+(* the number of tunnels only grows by SCCRQs that create one, and every tunnel id handed out is fresh *)
+Lemma lns_nonvacuous :
+  exists st, lns_run [108] lns0
+    [ [200; 2; 0; 35; 0; 0; 0; 0; 0; 0; 0; 0;  128; 8; 0; 0; 0; 0; 0; 1;  128; 7; 0; 0; 0; 7; 108;  128; 8; 0; 0; 0; 9; 16; 146];
+      [200; 2; 0; 20; 0; 1; 0; 0; 0; 1; 0; 1;  128; 8; 0; 0; 0; 0; 0; 3] ] = Ok st /\
+    map lns_toks st = [[TN 1; TN 1; TN 4242; TN 2; TN 0]; [TN 1; TN 1; TN 4242; TN 3; TN 0]].
+Proof. eexists. split; vm_compute; reflexivity. Qed.
+
 (* ---------------- the driver-level statement ---------------- *)
 Lemma run_total entry na ba : safe (run Repaired entry na ba).
 Proof.
@@ -1020,7 +1073,7 @@ Proof.
                  |apply strip_option82_total|apply set_option4_total|apply get_option4_total
                  |apply parse_sub82_total|apply dhcp_parse_total|apply parse_message4_total
                  |apply attr80_window_total|apply is_authentic_reply_total|apply validate_request_auth_total
-                 |apply validate_message_auth_total|apply l2tp_dispatch_ppp_total|apply l2tp_dispatch_total]
+                 |apply validate_message_auth_total|apply l2tp_dispatch_ppp_total|apply l2tp_dispatch_total|apply lns_run_total]
             | cbv zeta; safe_tac; first [apply handle_frame_total|apply has_service_type_total|apply event_timestamp_total|apply ipoe_msg_type_total]]|]).
   reflexivity.
 Qed.
